@@ -110,3 +110,156 @@ def c10(tier):
                           "TLC runs the solver's resolution protocol (SolverCore AddForm/ApplyFinal/LoadSpec) on every reference found"}
     return rep, "translation_validation", cov, ["paths are enumerated by forcing branch outcomes; loops take 0-2 iterations; lines with more than the path cap are enumerated depth-first up to the cap",
                                                   "assertion failures inside table look-ups on infeasible forced paths are ignored (only name-related exceptions count)"]
+
+
+# ---------------------------------------------------------------------------------------------
+# C17
+
+def _capture(fn, args):
+    import contextlib
+    import io
+    buf = io.StringIO()
+    code = 0
+    with contextlib.redirect_stdout(buf):
+        try:
+            fn(args)
+        except SystemExit as e:
+            code = e.code or 0
+    return buf.getvalue(), code
+
+
+def c17_facts():
+    import argparse
+    import configparser
+    import habutax
+    import habutax.forms as F
+    import habutax.enum as E
+    from habutax.form import InputForm, Jurisdiction
+    forms, tables, names, statuses = [], [], {}, {}
+    for year in sorted(F.available_forms):
+        en = E.filing_status_2021 if year == 2021 else E.filing_status
+        smembers = list(en.__members__.values())
+        statuses[str(year)] = [m.name for m in smembers]
+        names[str(year)] = [c.form_name for c in F.available_forms[year]]
+        lf_out, _ = _capture(habutax.list_forms, argparse.Namespace(year=year, contains=None, jurisdiction=None))
+        listed_names = set()
+        for line in lf_out.splitlines():
+            parts = [p.strip() for p in line.split("|")]
+            if len(parts) >= 3:
+                listed_names.add(parts[0])
+        for cls in F.available_forms[year]:
+            insts = list(getattr(cls, "valid_instances", [])) or [None]
+            if not hasattr(cls, "valid_instances"):
+                try:
+                    if issubclass(cls, InputForm):
+                        insts = ["0", "1"]
+                except TypeError:
+                    pass
+            for inst in insts:
+                rec = {"year": year, "name": cls.form_name if inst is None else "%s:%s" % (cls.form_name, inst), "instance": inst or "",
+                       "inst_ok": True, "tax_year": getattr(cls, "tax_year", -1), "meta": [], "fileable": False, "inputs": [], "lines": [],
+                       "badcase": [], "listed_section": "", "listed": [], "list_ok": False, "in_list_forms": cls.form_name in listed_names}
+                for a in ("description", "long_description", "sequence_no"):
+                    if isinstance(getattr(cls, a, None), (str, int)) and getattr(cls, a, None) != "":
+                        rec["meta"].append(a)
+                if isinstance(getattr(cls, "jurisdiction", None), Jurisdiction):
+                    rec["meta"].append("jurisdiction")
+                try:
+                    f = cls(instance=inst)
+                except Exception as e:      # noqa
+                    rec["inst_ok"] = False
+                    forms.append(rec)
+                    continue
+                rec["inputs"] = [x.base_name() for x in f.inputs()]
+                rec["lines"] = [x.base_name() for x in f.fields()]
+                rec["badcase"] = sorted(set(n for n in rec["inputs"] + rec["lines"] if n != n.lower() or "." in n))
+                rec["fileable"] = can_need_filing(f)
+                out, code = _capture(habutax.list_form_inputs, argparse.Namespace(year=year, form=rec["name"]))
+                text = "\n".join((l[1:] if (l.startswith("#") and re.match(r"^#[^ #].* =\s*$", l)) else l) for l in out.splitlines())
+                cp = configparser.ConfigParser()
+                try:
+                    cp.read_string(text)
+                    secs = cp.sections()
+                    rec["list_ok"] = code == 0 and len(secs) == 1
+                    if secs:
+                        rec["listed_section"] = secs[0]
+                        rec["listed"] = list(cp[secs[0]].keys())
+                except configparser.Error:
+                    rec["list_ok"] = False
+                forms.append(rec)
+                if inst not in (None, insts[0]):
+                    continue
+                for tname, t in getattr(f, "_thresholds", {}).items():
+                    if not isinstance(t, dict):
+                        continue
+                    keyset = set()
+                    for k in t:
+                        keyset.update(k if isinstance(k, tuple) else (k,))
+                    if not all(k in smembers for k in keyset):
+                        continue          # not keyed by filing status
+                    rows = [{"keys": [m.name for m in (k if isinstance(k, tuple) else (k,))], "val": repr(v)} for k, v in t.items()]
+                    got = {}
+                    for m in smembers:
+                        try:
+                            got[m.name] = repr(f.threshold(tname, m))
+                        except AssertionError:
+                            got[m.name] = "ERR"
+                    tables.append({"year": year, "form": rec["name"], "name": tname, "rows": rows, "got": got})
+    return {"forms": forms, "tables": tables, "names": names, "statuses": statuses}
+
+
+def can_need_filing(f):
+    """does needs_filing() return true for some values?"""
+    class V(dict):
+        def __init__(self, val):
+            self.val = val
+
+        def __getitem__(self, k):
+            return self.val
+
+        def __contains__(self, k):
+            return True
+
+        def get(self, k, d=None):
+            return self.val
+    for val in (True, 1.0, 1000.0, False, 0.0, "x"):
+        try:
+            if f.needs_filing(V(val)):
+                return True
+        except NotImplementedError:
+            return True       # the base class: no decision at all
+        except Exception:     # noqa
+            continue
+    return False
+
+
+def c17(tier):
+    rep = common.Reporter("C17", tier)
+    facts = c17_facts()
+    work = common.mkwork()
+    try:
+        path = os.path.join(work, "facts.json")
+        json.dump(facts, open(path, "w"))
+        cfgp = os.path.join(work, "c.cfg")
+        open(cfgp, "w").write("SPECIFICATION Spec\nCHECK_DEADLOCK FALSE\n")
+        res = common.run_tlc(os.path.join(common.SPEC, "CatalogueFacts.tla"), cfgp, cwd=work, workers=1, env={"HV_FACTS_FILE": path}, timeout=900)
+    finally:
+        common.rmwork(work)
+    n = len(facts["forms"]) + len(facts["tables"]) + 1
+    if res.rc != 0 or res.distinct != n + 1:
+        raise common.MachineryError("CatalogueFacts.tla failed (rc=%s, %d states for %d facts)\n%s" % (res.rc, res.distinct, n, res.error_excerpt(40)))
+    for m in re.finditer(r'^"C17\|(form|table|names)\|([^|]*)\|(.*)\|"$', res.out, re.M):
+        kind, idx, msg = m.group(1), m.group(2), m.group(3)
+        if kind == "form":
+            f = facts["forms"][int(idx) - 1]
+            rep.violation("form:%d:%s:%s" % (f["year"], f["name"], msg[:60]), msg, {"kind": "catalogue-form", "fact": f})
+        elif kind == "table":
+            t = facts["tables"][int(idx) - 1]
+            rep.violation("table:%d:%s.%s:%s" % (t["year"], t["form"], t["name"], msg[:40]), msg, {"kind": "threshold-table", "fact": t})
+        else:
+            rep.violation("names:%s" % idx, msg, {"kind": "catalogue", "year": idx})
+    cov = {"programs": len(facts["forms"]), "disagreements_checked": n, "samples": [facts["forms"][0], facts["tables"][0] if facts["tables"] else {}],
+           "form_instances": len(facts["forms"]), "status_tables": len(facts["tables"]), "table_status_pairs": 5 * len(facts["tables"]),
+           "states": res.distinct, "exhaustive": True,
+           "explanation": "every (year, form class, allowed instance) is introspected and listed through the real list-forms / list-form-inputs; every status-keyed threshold table is looked up through the real Form.threshold() for all five statuses; TLC evaluates CatalogueFacts.tla on the facts"}
+    return rep, "translation_validation", cov, ["input-only forms (W-2, 1099, 1098) are instantiated as copies 0 and 1", "inline if/elif status chains (2021, 2022) are covered by C08's echo probes, not here"]
